@@ -1,8 +1,13 @@
 #!/bin/sh
-# Offline setup after a fresh restore: build the harness and warm the build cache.
+# Offline setup after a fresh restore: build the harness and warm the build
+# caches (plain, instrumented-overlay and -race builds) so that the first check
+# does not pay for them.
 set -e
 cd "$(dirname "$0")"
 export GOFLAGS=-mod=mod GOPROXY=off GOSUMDB=off GOTOOLCHAIN=local
 mkdir -p .bin evidence replays .work
 go build -o .bin/vcheck ./cmd/vcheck
+# warm the race-enabled standard library and the overlay build used by C11
+VERIF_EVIDENCE_DIR="$PWD/.work/setup-ev" VERIF_REPLAY_DIR="$PWD/.work/setup-ev" VERIF_BUDGET_S=5 ./check C11 quick >/dev/null 2>&1 || true
+rm -rf .work/setup-ev
 echo "setup ok"
